@@ -5,35 +5,40 @@ import os, re, vlib
 def run(ck):
     q = ck.tier == "quick"
     vlib.clean(ck.wd)
-    ck.rule = ("leg A: FileTree!Eff over every consistent tree of a 6-path universe (3 levels, a space and a non-ASCII character in names, "
+    ck.rule = ("leg A: FileTree!Eff over every consistent tree of two universes (1: 6 paths, 3 levels, a space and a non-ASCII character in names; 2: 7 paths where the targets of moving / copying into an existing directory are inside the universe and one directory name carries a dot; "
                "contents '' / 'x') x every operation (writefile, appendfile, write/read binary, touch, mkdir, rm, rm -r, rmdir, readfile, "
                "is_path_exists, is_file, is_dir, get_file_size, glob_array listing, basename, dirname, cp, mv with every target): results are "
                "well-formed trees, failing operations change nothing, mv = cp ; rm; leg B: every case materialised in a fresh directory, the "
                "real command run, the directory walked back and compared in full with the output; leg C: random histories, every step "
                "validated by TLC against Eff applied to the previously observed tree. distinct_nontrivial = distinct (tree, operation) cases + recorded steps")
     cases = os.path.join(ck.wd, "c18_cases.ndjson")
-    a = vlib.tlc("C18_MC", "C18_A.cfg", ck.wd, workers=1, timeout=3000, env={"OUT": cases})
-    counts = [int(x) for x in re.findall(r"\d+", list(a.tuples("COUNTS"))[0])]
-    ck.add_tlc(a, "A: %d trees, %d cases (evaluated in ASSUMEs: TLC reports a single state)" % (counts[0], counts[1]))
-    ck.states += counts[0]; ck.transitions += counts[1]
-    s = vlib.vh_json(["c18-replay", cases, ck.wd], timeout=3000)
-    ck.traces += s["cases"]; ck.evaluations += s["cases"]; ck.distinct += s["cases"]
-    for b in s["bad"]:
-        ck.violation("fs:%s%s%s" % (b["cmd"], ":same-path" if b["same_path"] else "", ":panic" if "panic" in b["why"] else ""),
-                     "%s %s on %s: %s" % (b["cmd"], b["args"], b["tree"], b["why"][:400]), b)
-    for x in s["samples"]:
-        ck.sample(x)
-    ck.notes["legB"] = {"trees": counts[0], "cases": s["cases"]}
-    os.remove(cases)
+    ck.notes["legB"] = {}
+    for pool, cfg in ((1, "C18_A.cfg"), (2, "C18_A2.cfg")):
+        a = vlib.tlc("C18_MC", cfg, ck.wd, workers=1, timeout=3000, env={"OUT": cases}, tag="C18_A%d" % pool)
+        counts = [int(x) for x in re.findall(r"\d+", list(a.tuples("COUNTS"))[0])]
+        ck.add_tlc(a, "A: universe %d: %d trees, %d cases (evaluated in ASSUMEs: TLC reports a single state)" % (pool, counts[0], counts[1]))
+        ck.states += counts[0]; ck.transitions += counts[1]
+        s = vlib.vh_json(["c18-replay", cases, ck.wd], timeout=3000)
+        ck.traces += s["cases"]; ck.evaluations += s["cases"]; ck.distinct += s["cases"]
+        for b in s["bad"]:
+            ck.violation("fs:%s%s%s" % (b["cmd"], ":same-path" if b["same_path"] else "", ":panic" if "panic" in b["why"] else ""),
+                         "%s %s on %s: %s" % (b["cmd"], b["args"], b["tree"], b["why"][:400]), b)
+        for x in s["samples"]:
+            ck.sample(x)
+        ck.notes["legB"]["universe%d" % pool] = {"trees": counts[0], "cases": s["cases"]}
+        os.remove(cases)
     ck.cmds.append("tlc C18_A.cfg C18_MC.tla; vh c18-replay; vh c18-record; tlc C18_Trace.tla")
     nh, ln = (300, 60) if q else (6000, 100)
     tr = os.path.join(ck.wd, "c18_trace.ndjson")
-    s = vlib.vh_json(["c18-record", ck.seed, nh, ln, tr, ck.wd], timeout=3000)
-    r, k, viol, drift = vlib.trace_validate("C18_Trace", "Trace.cfg", ck.wd, tr, timeout=3000)
-    if k != s["events"]:
-        raise vlib.ToolError("trace validation consumed %d of %d" % (k, s["events"]))
-    ck.add_tlc(r, "C: %d histories, %d steps" % (s["histories"], s["events"]))
-    ck.traces += s["histories"]; ck.evaluations += s["events"]; ck.distinct += s["events"]
+    viol = []
+    for pool in (1, 2):
+        s = vlib.vh_json(["c18-record", ck.seed, nh if pool == 1 else nh // 2, ln, tr, ck.wd, pool], timeout=3000)
+        r, k, vs, drift = vlib.trace_validate("C18_Trace", "C18_Trace%d.cfg" % pool, ck.wd, tr, timeout=3000, tag="C18_Trace%d" % pool)
+        if k != s["events"]:
+            raise vlib.ToolError("trace validation consumed %d of %d" % (k, s["events"]))
+        ck.add_tlc(r, "C: universe %d: %d histories, %d steps" % (pool, s["histories"], s["events"]))
+        ck.traces += s["histories"]; ck.evaluations += s["events"]; ck.distinct += s["events"]
+        viol += vs
     for v in viol:
         same = len(v["a"]) > 1 and v["a"][0] == v["a"][1]
         ck.violation("fs:%s%s%s" % (v["cmd"], ":same-path" if same else "", ":panic" if v["err"] else ""),
